@@ -75,6 +75,14 @@ func (n *Node) TextRaw() string {
 }
 
 func (w *World) ListBuckets() ([]string, Resp) {
+	names, r := w.ListBucketsInOrder()
+	names = append([]string{}, names...)
+	sort.Strings(names)
+	return names, r
+}
+
+// ListBucketsInOrder returns the bucket names in the order of the response.
+func (w *World) ListBucketsInOrder() ([]string, Resp) {
 	r := w.Do(Req{Method: "GET", Path: "/"})
 	var names []string
 	if n := r.XML(); n != nil && r.Status == 200 {
@@ -84,7 +92,6 @@ func (w *World) ListBuckets() ([]string, Resp) {
 			}
 		}
 	}
-	sort.Strings(names)
 	return names, r
 }
 
